@@ -24,3 +24,21 @@ OBLIGATIONS['C11'] = [
 META['C11'] = dict(
     outside='handle tables with more entries than the capacity; 2^64 counter wrap-around; the SoftHSM.cpp wrappers beyond the obligations listed',
     assumptions=['representation invariant INV of HandleManager (harness/C11/hm_ind.cpp: keys in [1,counter], distinct, kinds valid, objects map is a sub-relation of the inverse of handles) - proved inductive by the same obligations'])
+
+# ----------------------------------------------------------------------------- C07
+ENTRY_REAL = ['SoftHSM.cpp', 'access.cpp', 'session_mgr/Session.cpp', 'slot_mgr/Token.cpp', 'data_mgr/SecureDataManager.cpp',
+              'handle_mgr/HandleManager.cpp', 'handle_mgr/Handle.cpp', 'data_mgr/ByteString.cpp', 'object_store/OSAttribute.cpp',
+              'crypto/SymmetricAlgorithm.cpp', 'crypto/AsymmetricAlgorithm.cpp', 'crypto/MacAlgorithm.cpp', 'crypto/HashAlgorithm.cpp',
+              'crypto/SymmetricKey.cpp']
+GETKEY_STUBS = {n: 'sink_getKey' for n in [
+    '_ZN7SoftHSM15getSymmetricKeyEP12SymmetricKeyP5TokenP8OSObject', '_ZN7SoftHSM15getRSAPublicKeyEP12RSAPublicKeyP5TokenP8OSObject',
+    '_ZN7SoftHSM16getRSAPrivateKeyEP13RSAPrivateKeyP5TokenP8OSObject', '_ZN7SoftHSM16getDSAPrivateKeyEP13DSAPrivateKeyP5TokenP8OSObject',
+    '_ZN7SoftHSM15getECPrivateKeyEP12ECPrivateKeyP5TokenP8OSObject', '_ZN7SoftHSM15getEDPrivateKeyEP12EDPrivateKeyP5TokenP8OSObject',
+    '_ZN7SoftHSM15getDSAPublicKeyEP12DSAPublicKeyP5TokenP8OSObject', '_ZN7SoftHSM14getECPublicKeyEP11ECPublicKeyP5TokenP8OSObject',
+    '_ZN7SoftHSM14getEDPublicKeyEP11EDPublicKeyP5TokenP8OSObject', '_ZN7SoftHSM15getDHPrivateKeyEP12DHPrivateKeyP5TokenP8OSObject']}
+OBLIGATIONS['C07'] = [
+    Ob('init_' + n, 'C07/init_guard.cpp', ENTRY_REAL, defines={'OP': op}, unwind=18, stubs=GETKEY_STUBS, caps='common/entry_caps.h',
+       desc='%s: rv==CKR_OK or key material/crypto reached => usage flag, key type fits mechanism, CKA_ALLOWED_MECHANISMS and advertised list honoured; private key only for logged-in user; operation gate' % fn,
+       bounds='mechanism: all 2^64 values; parameter <= 64 bytes (IV <= 16); key attribute table: 8 symbolic attributes; advertised list <= 2 entries; allowed set <= 2 entries')
+    for (op, n, fn) in [(0, 'encrypt', 'C_EncryptInit'), (1, 'decrypt', 'C_DecryptInit'), (2, 'sign', 'C_SignInit'), (3, 'verify', 'C_VerifyInit')]]
+META['C07'] = dict(outside='translation of the slots.mechanisms string into the advertised list (prepareSupportedMechanisms); OpenSSL', assumptions=[])
